@@ -37,6 +37,8 @@ QUEUE = "_write_msg_queue"
 
 def run(ctx: Ctx):
     model = ctx.model
+    from .common_node import names_resolve
+    names_resolve(ctx, "C15-RN")
     peer = model.module("node.peer")
     node = model.module("node.node")
     pc = peer.classes.get("PeerConnection")
